@@ -55,5 +55,77 @@ Proof.
   all: try solve [intros rr tt HH; apply In_obj_app in HH; destruct HH as [HH|HH]; [eauto|apply In_diff in HH; destruct HH; eauto]].
   all: try solve [intros _; apply J3; right; left; assumption].
   all: try solve [intros HH; first [assumption | specialize (J3 HH); congruence]].
+  all: try solve [match goal with E : closer _ = _ |- _ => rewrite E end;
+                  first [exact J3 | exact J4 | intros [HH|[HH|[xx HH]]]; discriminate | intros xx HH; discriminate]].
   all: try solve [intros xx HH; injection HH as <-; left; reflexivity].
+  all: try solve [intros HH xx; rewrite Epc; apply (J1 HH xx)].
+Qed.
+
+Lemma step2_reg g s t :
+  Inv2 g s -> Inv2 (g_step g (Step (Reg t)) (snd (step_reg s t))) (fst (step_reg s t)).
+Proof.
+  intros J. unfold step_reg.
+  destruct (regs s t) eqn:Er; try exact J.
+  - destruct (lock s); [exact J|]. destruct J as [J1 J2 J3 J4].
+    cbn [fst snd]; unfold g_step; simpl. constructor; simpl; auto.
+    intros r x H. apply added_set_reg; [rewrite Er; intros []|eauto].
+  - destruct J as [J1 J2 J3 J4]. cbn [fst snd]; unfold g_step; simpl. constructor; simpl; auto.
+    intros r x H. apply added_set_reg; [rewrite Er; intros []|eauto].
+  - destruct J as [J1 J2 J3 J4]. cbn [fst snd]; unfold g_step; simpl. constructor; simpl; auto.
+    intros r' x H. apply In_obj_add in H. destruct H as [H|(-> & _)].
+    + apply added_set_reg; [intros _; exact Logic.I|eauto].
+    + rewrite set_reg_eq. exact Logic.I.
+  - destruct J as [J1 J2 J3 J4]. cbn [fst snd]; unfold g_step; simpl. constructor; simpl; auto.
+    intros r x H. apply added_set_reg; [intros _; exact Logic.I|eauto].
+Qed.
+
+Lemma step2_closer g s :
+  Inv2 g s -> Inv2 (g_step g (Step Closer) (snd (step_closer s))) (fst (step_closer s)).
+Proof.
+  intros J. unfold step_closer.
+  destruct (closer s) eqn:Ec; try exact J; destruct J as [J1 J2 J3 J4]; rewrite Ec in *.
+  - cbn [fst snd]; unfold g_step; simpl. constructor; simpl; auto; try discriminate.
+    all: try solve [intros [H|[H|[e H]]]; discriminate].
+    all: try solve [intros e H; discriminate].
+  - cbn [fst snd]; unfold g_step; simpl. constructor; simpl; auto; try discriminate.
+    all: try solve [intros [H|[H|[e H]]]; discriminate].
+    all: try solve [intros e H; discriminate].
+  - cbn [fst snd]; unfold g_step; simpl. constructor; simpl; auto; discriminate.
+  - assert (Hc : closed s = true) by (apply J3; left; reflexivity).
+    destruct (m_pc s) eqn:Epc; cbn [fst snd]; unfold g_step; simpl; constructor; simpl; auto;
+      try discriminate; try (intros _ x; discriminate).
+    intros x H. injection H as <-. left. reflexivity.
+Qed.
+
+Lemma step2 g s l :
+  Inv2 g s -> Inv2 (g_step g l (snd (step raises s l))) (fst (step raises s l)).
+Proof.
+  intros J. destruct l as [t|[| |t]|t|]; simpl.
+  - destruct (regs s t) eqn:Er; try exact J. destruct J as [J1 J2 J3 J4].
+    cbn [fst snd]; unfold g_step; simpl. constructor; simpl; auto.
+    intros r x H. apply added_set_reg; [rewrite Er; intros []|eauto].
+  - apply step2_mon; assumption.
+  - apply step2_closer; assumption.
+  - apply step2_reg; assumption.
+  - destruct (regs s t) eqn:Er; try exact J. destruct J as [J1 J2 J3 J4].
+    cbn [fst snd]; unfold g_step; simpl. constructor; simpl; auto.
+    intros r x H. apply added_set_reg; [intros _; exact Logic.I|eauto].
+  - destruct (closer s) eqn:Ec; try exact J. destruct J as [J1 J2 J3 J4]. rewrite Ec in *.
+    cbn [fst snd]; unfold g_step; simpl. constructor; simpl; auto; try discriminate.
+    all: try solve [intros [H|[H|[e H]]]; discriminate].
+    all: try solve [intros e H; discriminate].
+Qed.
+
+End Steps2.
+
+Lemma grun_inv2 raises ls : forall g s, Inv2 g s ->
+  Inv2 (fst (grun_from raises g s ls)) (snd (grun_from raises g s ls)).
+Proof.
+  induction ls as [|l r IH]; intros g s J; simpl; [exact J|].
+  pose proof (step2 raises g s l J) as J'. destruct (step raises s l) as [s' o]. apply IH. exact J'.
+Qed.
+
+Theorem Inv2_run raises ls : Inv2 (ghost_of (history raises ls)) (run raises ls).
+Proof.
+  pose proof (grun_inv2 raises ls g0 init Inv2_init) as H. rewrite grun_spec in H. exact H.
 Qed.
